@@ -3,7 +3,13 @@ package g_hstream
 import (
 	"bytes"
 	"context"
+	"crypto/md5"
+	"crypto/sha1"
+	"crypto/sha256"
+	"crypto/sha512"
 	"encoding/base64"
+	"encoding/hex"
+	"fmt"
 	"reflect"
 	"strings"
 	"sync/atomic"
@@ -33,11 +39,148 @@ type c12Case struct {
 	Bytes   []byte `json:"bytes,omitempty"`
 	KeyLen  int    `json:"key_len,omitempty"`
 	TextPos int    `json:"text_pos,omitempty"`
+	// The operator key of the server under test and the key the foreign tokens
+	// are minted under (both of any length >= 16; empty = the fixed 32-byte key
+	// and KeyLen bytes of 0x5a, as in cases recorded before the keys were
+	// generated). KeyRel says how the two were derived from one another.
+	VictimKey  []byte `json:"victim_key,omitempty"`
+	ForeignKey []byte `json:"foreign_key,omitempty"`
+	KeyRel     string `json:"key_rel,omitempty"`
+}
+
+// ---- operator keys ----
+
+// keyLens are the lengths at which key handling usually changes: the minimum
+// the constructor accepts, the cipher's key size, digest sizes and the block
+// sizes of the common hashes, each with its neighbours.
+var c12KeyLens = []int{16, 17, 20, 24, 31, 32, 33, 47, 48, 49, 63, 64, 65, 80, 96, 127, 128, 129, 160}
+
+func genC12Key(t *rapid.T) []byte {
+	n := c12KeyLens[rapid.IntRange(0, len(c12KeyLens)-1).Draw(t, "klen")]
+	if rapid.IntRange(0, 3).Draw(t, "klen-any") == 0 {
+		n = rapid.IntRange(16, 200).Draw(t, "klen-n")
+	}
+	if rapid.Bool().Draw(t, "kascii") { // passphrase-like
+		return rapid.SliceOfN(rapid.ByteRange(0x21, 0x7e), n, n).Draw(t, "kchars")
+	}
+	return rapid.SliceOfN(rapid.Byte(), n, n).Draw(t, "kbytes")
+}
+
+var c12PadBytes = []byte{0x00, 0x00, 0x00, 0xff, 0x20, 0x0a, 0x80, 0x01, 0x3d}
+var c12Digests = []string{"sha256", "sha256", "sha512", "sha1", "md5", "sha224", "sha384", "sha512_256"}
+
+func c12Digest(alg string, k []byte) []byte {
+	switch alg {
+	case "sha256":
+		d := sha256.Sum256(k)
+		return d[:]
+	case "sha512":
+		d := sha512.Sum512(k)
+		return d[:]
+	case "sha1":
+		d := sha1.Sum(k)
+		return d[:]
+	case "md5":
+		d := md5.Sum(k)
+		return d[:]
+	case "sha224":
+		d := sha256.Sum224(k)
+		return d[:]
+	case "sha384":
+		d := sha512.Sum384(k)
+		return d[:]
+	case "sha512_256":
+		d := sha512.Sum512_256(k)
+		return d[:]
+	}
+	panic("c12Digest: " + alg)
+}
+
+// genC12Related derives another operator key from k by one elementary step an
+// operator, a configuration system or a key-derivation routine might apply:
+// padding, stripping, cutting to a size, hashing (raw / hex / base64), one
+// flipped bit. The result differs from k and has at least 16 bytes.
+func genC12Related(t *rapid.T, k []byte) ([]byte, string) {
+	for {
+		var out []byte
+		var rel string
+		switch rapid.IntRange(0, 5).Draw(t, "rel") {
+		case 0, 1:
+			pad := c12PadBytes[rapid.IntRange(0, len(c12PadBytes)-1).Draw(t, "padbyte")]
+			n := rapid.IntRange(1, 4).Draw(t, "padn")
+			switch rapid.IntRange(0, 3).Draw(t, "padto") {
+			case 0: // up to a size boundary
+				for _, b := range []int{24, 32, 48, 64, 128} {
+					if b > len(k) {
+						n = b - len(k)
+						break
+					}
+				}
+			case 1:
+				n = rapid.IntRange(1, 70).Draw(t, "padlong")
+			}
+			out = append(append([]byte{}, k...), bytes.Repeat([]byte{pad}, n)...)
+			rel = fmt.Sprintf("append-%02x", pad)
+		case 2:
+			n := rapid.IntRange(1, 3).Draw(t, "dropn")
+			if len(k)-n >= 16 {
+				out, rel = append([]byte{}, k[:len(k)-n]...), "drop-last"
+			}
+		case 3:
+			n := []int{16, 32, 64, 128}[rapid.IntRange(0, 3).Draw(t, "cut")]
+			if n < len(k) {
+				out, rel = append([]byte{}, k[:n]...), "prefix"
+			}
+		case 4:
+			alg := c12Digests[rapid.IntRange(0, len(c12Digests)-1).Draw(t, "alg")]
+			d := c12Digest(alg, k)
+			switch rapid.IntRange(0, 3).Draw(t, "render") {
+			case 0, 1:
+				out, rel = d, "digest-"+alg+"-raw"
+			case 2:
+				out, rel = []byte(hex.EncodeToString(d)), "digest-"+alg+"-hex"
+			default:
+				out, rel = []byte(base64.StdEncoding.EncodeToString(d)), "digest-"+alg+"-b64"
+			}
+		default:
+			out = append([]byte{}, k...)
+			out[rapid.IntRange(0, len(k)-1).Draw(t, "flipat")] ^= 1 << rapid.IntRange(0, 7).Draw(t, "flipbit")
+			rel = "bit-flip"
+		}
+		if len(out) >= 16 && !bytes.Equal(out, k) {
+			return out, rel
+		}
+	}
+}
+
+// genC12Keys draws the server's key and the foreign key: unrelated, or one to
+// two derivation steps apart, in either direction.
+func genC12Keys(t *rapid.T, c *c12Case) {
+	base := genC12Key(t)
+	if rapid.IntRange(0, 3).Draw(t, "unrelated") == 0 {
+		c.VictimKey, c.ForeignKey, c.KeyRel = base, genC12Key(t), "unrelated"
+		if bytes.Equal(c.VictimKey, c.ForeignKey) {
+			c.ForeignKey = append(c.ForeignKey, 'x')
+		}
+		return
+	}
+	derived, rel := genC12Related(t, base)
+	if rapid.IntRange(0, 2).Draw(t, "twosteps") == 0 {
+		d2, rel2 := genC12Related(t, derived)
+		if !bytes.Equal(d2, base) {
+			derived, rel = d2, rel+"+"+rel2
+		}
+	}
+	if rapid.Bool().Draw(t, "keyswap") {
+		c.VictimKey, c.ForeignKey, c.KeyRel = derived, base, "inverse:"+rel
+	} else {
+		c.VictimKey, c.ForeignKey, c.KeyRel = base, derived, rel
+	}
 }
 
 var c12Mutations = []string{"flip-version", "flip-nonce", "flip-ciphertext", "flip-tag", "multi-edit", "truncate", "extend", "set-version",
 	"b64-url-alphabet", "b64-strip-padding", "b64-extra-padding", "b64-insert-crlf", "b64-insert-space", "b64-trailing-bits",
-	"other-key", "swap", "concat", "empty", "identity-respell", "sibling-stream", "sibling-stream"}
+	"other-key", "other-key", "other-key-pair", "other-key-pair", "other-key-pair", "other-key-pair", "swap", "concat", "empty", "identity-respell", "sibling-stream", "sibling-stream"}
 
 func genC12(t *rapid.T) c12Case {
 	c := c12Case{Method: []string{"s_prod", "s_exch", "s_dyn"}[rapid.IntRange(0, 2).Draw(t, "method")],
@@ -54,6 +197,7 @@ func genC12(t *rapid.T) c12Case {
 	c.Bytes = rapid.SliceOfN(rapid.Byte(), 1, 8).Draw(t, "bytes")
 	c.KeyLen = rapid.IntRange(16, 64).Draw(t, "keylen")
 	c.TextPos = rapid.IntRange(0, 1<<20).Draw(t, "textpos")
+	genC12Keys(t, &c)
 	return c
 }
 
@@ -174,14 +318,44 @@ func (c c12Case) mutateToken(tok, other, foreign string) string {
 	return tok
 }
 
+// c12EffectiveKey is the documented normal form of an operator key
+// (NewHttpServerWithKey: the cipher needs exactly 32 bytes, "keys of any other
+// length are normalized via SHA-256"). Two operator keys with the same normal
+// form are the same token key: whoever holds SHA-256(K) holds K's sealing key.
+func c12EffectiveKey(k []byte) []byte {
+	if len(k) == 32 {
+		return k
+	}
+	d := sha256.Sum256(k)
+	return d[:]
+}
+
+// c12KeyRelation names, for the root-cause key, how two operator keys that
+// turned out to be interchangeable are related.
+func c12KeyRelation(own, other []byte, rel string) string {
+	switch {
+	case bytes.HasPrefix(other, own) || bytes.HasPrefix(own, other):
+		return "one-is-a-prefix-of-the-other"
+	case rel == "" || rel == "unrelated":
+		return "unrelated"
+	}
+	return "derived"
+}
+
 func runC12(c c12Case) (out lib.Outcome) {
 	lib.ResetEvents()
+	if c.Mutation == "other-key-pair" {
+		c.Which = "cursor" // the token the server opens first
+	}
 	hook := &countHook{}
 	var rehydrates atomic.Int64
 	o := srvOpts{Limit: 1, Hook: hook, Rehydrate: func(state interface{}, method string) error { rehydrates.Add(1); return nil }}
 	if c.Cache0 {
 		z := 0
 		o.Cache = &z
+	}
+	if len(c.VictimKey) > 0 {
+		o.Key = c.VictimKey
 	}
 	h := newHTTP(o)
 	call := lib.CallSpec{Kind: "stream", Method: c.Method, CancelAt: -1,
@@ -217,6 +391,19 @@ func runC12(c c12Case) (out lib.Outcome) {
 		return
 	}
 	otherKey := bytes.Repeat([]byte{0x5a}, c.KeyLen)
+	if len(c.ForeignKey) > 0 {
+		otherKey = c.ForeignKey
+	}
+	victimKey := tokenKey
+	if len(c.VictimKey) > 0 {
+		victimKey = c.VictimKey
+	}
+	foreignMut := c.Mutation == "other-key" || c.Mutation == "other-key-pair"
+	if foreignMut && bytes.Equal(victimKey, otherKey) {
+		out.Label("foreign-key-equals-own")
+		return
+	}
+	sameNormalForm := foreignMut && bytes.Equal(c12EffectiveKey(victimKey), c12EffectiveKey(otherKey))
 	fCursor, fCall, ok := mint(newHTTP(srvOpts{Limit: 1, Key: otherKey}))
 	if !ok {
 		out.Violate("C12/harness-mint", "could not mint foreign-key tokens")
@@ -241,6 +428,11 @@ func runC12(c c12Case) (out lib.Outcome) {
 			orig, mutated = callTok, sCall
 			pCall = mutated
 		}
+	} else if c.Mutation == "other-key-pair" {
+		// what a client of the other deployment holds: both tokens of one of its
+		// streams, neither altered
+		orig, mutated = cursor, fCursor
+		pCursor, pCall = fCursor, fCall
 	} else if c.Which == "cursor" {
 		orig, mutated = cursor, c.mutateToken(cursor, callTok, fCursor)
 		pCursor = mutated
@@ -265,7 +457,27 @@ func runC12(c c12Case) (out lib.Outcome) {
 	} else {
 		out.Label("altered-structure-broken")
 	}
-	consulted := c.Which == "cursor" || c.Cache0
+	consulted := c.Which == "cursor" || c.Cache0 || c.Mutation == "other-key-pair"
+	if foreignMut {
+		rel := c.KeyRel
+		if rel == "" {
+			rel = "unrelated"
+		}
+		steps := strings.Split(strings.TrimPrefix(rel, "inverse:"), "+")
+		out.Label("foreign-key:" + strings.SplitN(steps[0], "-", 2)[0])
+		if len(steps) > 1 {
+			out.Label("foreign-key:two-steps")
+		}
+		if strings.HasPrefix(rel, "inverse:") {
+			out.Label("foreign-key:own-key-is-the-derived-one")
+		}
+		if len(victimKey) != 32 {
+			out.Label("foreign-key:own-key-not-32-bytes")
+		}
+		if len(otherKey) != 32 {
+			out.Label("foreign-key:other-key-not-32-bytes")
+		}
+	}
 	if c.Mutation == "sibling-stream" {
 		// both tokens are genuine; what is wrong is the pairing, which the server
 		// only looks at when it has to open the call token
@@ -287,21 +499,42 @@ func runC12(c c12Case) (out lib.Outcome) {
 		out.Violate("C12/panic", "presentation panicked: %s", lib.Short(resp.Panic, 200))
 		return
 	}
+	if sameNormalForm {
+		// the other operator key is this server's own key in its documented
+		// normal form (or the other way round): the same token key, nothing to assert
+		out.Label("foreign-key:same-normal-form")
+		out.NonTrivial = false
+		return
+	}
 	if same || !consulted {
 		// the same token (or one the server need not look at) may be accepted; nothing to assert
 		return
 	}
+	// every clause broken by tokens of a key that is related to the server's own
+	// is one root cause: the two keys are interchangeable
+	vkey := func(clause string, feature ...string) string {
+		if foreignMut {
+			if rel := c12KeyRelation(victimKey, otherKey, c.KeyRel); rel != "unrelated" {
+				return lib.Keyf("C12", "related-foreign-key-honoured", rel)
+			}
+		}
+		return lib.Keyf("C12", clause, feature...)
+	}
+	keys := ""
+	if foreignMut {
+		keys = fmt.Sprintf(" [tokens sealed under another operator key: own key %d bytes %x, other key %d bytes %x, relation %q]", len(victimKey), victimKey, len(otherKey), otherKey, c.KeyRel)
+	}
 	if resp.Status < 400 || resp.Status > 499 {
-		out.Violate(lib.Keyf("C12", "altered-token-accepted", c.Which, c.Mutation), "%s token altered by %s answered %d", c.Which, c.Mutation, resp.Status)
+		out.Violate(vkey("altered-token-accepted", c.Which, c.Mutation), "%s token altered by %s answered %d%s", c.Which, c.Mutation, resp.Status, keys)
 	}
 	if after := lib.Events(call.Stream.ID); !reflect.DeepEqual(evBefore, after) {
-		out.Violate(lib.Keyf("C12", "state-reached", c.Which, c.Mutation), "state methods ran for an altered %s token (%s): %v -> %v", c.Which, c.Mutation, evBefore, after)
+		out.Violate(vkey("state-reached", c.Which, c.Mutation), "state methods ran for an altered %s token (%s): %v -> %v%s", c.Which, c.Mutation, evBefore, after, keys)
 	}
 	if rehydrates.Load() != rehBefore {
-		out.Violate(lib.Keyf("C12", "rehydrate-ran", c.Which), "rehydrate callback ran for an altered %s token (%s)", c.Which, c.Mutation)
+		out.Violate(vkey("rehydrate-ran", c.Which), "rehydrate callback ran for an altered %s token (%s)%s", c.Which, c.Mutation, keys)
 	}
 	if hook.starts.Load() != startsBefore {
-		out.Violate(lib.Keyf("C12", "hook-ran", c.Which), "dispatch hook ran for an altered %s token (%s)", c.Which, c.Mutation)
+		out.Violate(vkey("hook-ran", c.Which), "dispatch hook ran for an altered %s token (%s)%s", c.Which, c.Mutation, keys)
 	}
 	// bad-signature refusals are indistinguishable from one another
 	// A length-changing edit has to be re-spelled with or without padding; when
@@ -322,7 +555,7 @@ func runC12(c c12Case) (out lib.Outcome) {
 		}
 		ref := lib.PostArrow(h, "/"+c.Method+"/exchange", lib.ContinuationBody(input(), rc, rcall, nil), nil)
 		if ref.Status != resp.Status || !bytes.Equal(ref.Decoded, resp.Decoded) {
-			out.Violate(lib.Keyf("C12", "refusals-distinguishable", c.Mutation), "refusal for %s (%d, %d bytes) differs from the reference bad-signature refusal (%d, %d bytes)", c.Mutation, resp.Status, len(resp.Decoded), ref.Status, len(ref.Decoded))
+			out.Violate(vkey("refusals-distinguishable", c.Mutation), "refusal for %s (%d, %d bytes) differs from the reference bad-signature refusal (%d, %d bytes)%s", c.Mutation, resp.Status, len(resp.Decoded), ref.Status, len(ref.Decoded), keys)
 		}
 	}
 	return
@@ -330,12 +563,15 @@ func runC12(c c12Case) (out lib.Outcome) {
 
 var propC12 = lib.Prop[c12Case]{
 	ID: "C12",
-	Rule: "real cursor and call tokens minted at producer/exchange/dynamic methods after 0-2 turns, then one of them altered: bit flips in the version byte / nonce / ciphertext / tag, multi-byte edits, truncation to any length, extension, any version byte, base64 respellings (URL alphabet, stripped/extra padding, CR LF, space, non-canonical trailing bits, identical re-encoding), tokens of the same kind sealed under another key of length 16-64, cursor and call token swapped or concatenated, empty, a genuine token of the same kind minted for a sibling stream on the same server; call cache default or disabled. " +
+	Rule: "real cursor and call tokens minted at producer/exchange/dynamic methods after 0-2 turns, then one of them altered: bit flips in the version byte / nonce / ciphertext / tag, multi-byte edits, truncation to any length, extension, any version byte, base64 respellings (URL alphabet, stripped/extra padding, CR LF, space, non-canonical trailing bits, identical re-encoding), tokens of the same kind — or a whole cursor + call token pair — sealed by a second server under another operator key, where the server's own key has any length 16-200 (lengths around the cipher key, digest and hash-block sizes preferred; passphrase or arbitrary bytes) and the other key is unrelated or one to two derivation steps away in either direction (padding with NUL / 0xff / space / newline / ... by a few bytes, to a size boundary or beyond a hash block; dropping trailing bytes; cutting to 16/32/64/128 bytes; a sha256/sha512/sha1/md5/sha224/sha384/sha512-256 digest of the key raw, in hex or in base64; one flipped bit), cursor and call token swapped or concatenated, empty, a genuine token of the same kind minted for a sibling stream on the same server; call cache default or disabled. " +
 		"Oracle: if the decoded bytes differ from the sealed original (and the server has to consult that token) -> 4xx, with the state call log, rehydrate counter and dispatch-hook counter unchanged; refusals whose structure is intact are byte-identical to a reference bad-signature refusal. Non-trivial: altered token that still base64-decodes to >= 41 bytes with the right version byte.",
 	Gen:          genC12,
 	Run:          runC12,
-	Essential:    []string{"altered-structure-intact", "altered-structure-broken", "same-bytes", "mut:other-key", "mut:sibling-stream", "which:call", "call-token-not-consulted"},
+	Essential: []string{"altered-structure-intact", "altered-structure-broken", "same-bytes", "mut:other-key", "mut:sibling-stream", "which:call", "call-token-not-consulted",
+		"mut:other-key-pair", "foreign-key:unrelated", "foreign-key:append", "foreign-key:drop", "foreign-key:prefix", "foreign-key:digest", "foreign-key:bit",
+		"foreign-key:own-key-not-32-bytes", "foreign-key:other-key-not-32-bytes", "foreign-key:two-steps", "foreign-key:own-key-is-the-derived-one"},
 	EssentialMin: 300,
+	Assumptions: []string{"'the same token key' is judged on the documented normal form of an operator key (32 bytes: the key itself; any other length: its SHA-256, as NewHttpServerWithKey documents and the Python port shares): two operator keys with the same normal form are one key, generated (label foreign-key:same-normal-form) but not judged"},
 }
 
 func TestC12(t *testing.T) { lib.Check(t, propC12) }
